@@ -339,6 +339,102 @@ def desugar_combinators(raw, closure_lookup, max_rounds=8):
     return raw, n_done
 
 
+def _single_def(S, local):
+    """(bi, si, node) of the only whole-local definition of `local` in non-cleanup blocks (si == None: the call
+    terminator of block bi defines it), or None."""
+    found = None
+    for bi, bb in enumerate(S.blocks):
+        if bb["cleanup"]:
+            continue
+        for si, st in enumerate(bb["stmts"]):
+            if st["k"] == "assign" and st["pl"]["l"] == local and not st["pl"]["p"]:
+                if found is not None:
+                    return None
+                found = (bi, si, st)
+        t = bb["term"]
+        if t and t["k"] == "call" and t["dest"]["l"] == local and not t["dest"]["p"]:
+            if found is not None:
+                return None
+            found = (bi, None, t)
+    return found
+
+
+def _awaited_coroutine(S, op):
+    """The coroutine literal {def, fields} that the pinned future polled through operand `op` was made from:
+    poll(Pin::new_unchecked(&mut *&mut fut)) with fut = into_future(coroutine { .. }) - or None."""
+    cur = op
+    for _ in range(12):
+        if cur.get("k") not in ("move", "copy") or [e for e in cur["pl"]["p"] if e != "*"]:
+            return None
+        d = _single_def(S, cur["pl"]["l"])
+        if d is None:
+            return None
+        bi, si, node = d
+        if si is None:
+            c = node.get("callee", "")
+            if c.endswith("Pin::<Ptr>::new_unchecked") or c.endswith("IntoFuture::into_future") or c.endswith("Pin::new_unchecked"):
+                cur = node["args"][0]
+                continue
+            return None
+        rv = node["rv"]
+        if rv["k"] == "agg" and rv.get("ak") == "coroutine":
+            return rv
+        if rv["k"] == "use":
+            cur = rv["op"]
+            continue
+        if rv["k"] == "ref":
+            cur = {"k": "move", "pl": rv["pl"]}
+            continue
+        return None
+    return None
+
+
+def inline_awaited(raw, coroutine_lookup, max_rounds=6):
+    """`helper(..).await` on an async fn that a refactoring introduced: the poll of the helper's future is replaced
+    by the helper's coroutine body (its own awaits keep their yields), the result wrapped in Poll::Ready, and the
+    Pending side of the await loop is cut.  coroutine_lookup(def) -> raw coroutine body, or None to leave the await
+    alone.  Returns (raw, number of awaits spliced)."""
+    raw = copy.deepcopy(raw)
+    S = Splicer(raw)
+    n_done = 0
+    for _ in range(max_rounds):
+        changed = False
+        for bi in range(len(S.blocks)):
+            bb = S.blocks[bi]
+            t = bb["term"]
+            if bb["cleanup"] or not t or t["k"] != "call" or t["t"] is None or not t.get("callee", "").endswith("Future::poll") or len(t["args"]) != 2:
+                continue
+            agg = _awaited_coroutine(S, t["args"][0])
+            if agg is None:
+                continue
+            cb = coroutine_lookup(agg["def"])
+            if cb is None:
+                continue
+            sp = t["sp"]
+            dest, cont = t["dest"], t["t"]
+            # the coroutine's parameters: _1 = its environment (captures), _2 = the resume argument (task context)
+            entry, loff, rets = _splice_closure(S, cb, agg["fields"], [{"k": "copy", "pl": P(2)}], sp)
+            for rb in rets:
+                blk = S.blocks[rb]
+                blk["stmts"].append(assign(copy.deepcopy(dest), {"k": "agg", "ak": "adt", "adt": "std::task::Poll", "variant": "Ready", "fnames": ["0"], "fields": [mv(P(loff))]}, sp))
+                blk["term"] = goto(cont, sp)
+            bb["term"] = goto(entry, sp)
+            # the await loop's `match poll { Ready(v) => .., Pending => yield }`: only Ready is left
+            cb_ = S.blocks[cont]
+            ct = cb_["term"]
+            if ct and ct["k"] == "switch" and cb_["stmts"] and cb_["stmts"][-1]["k"] == "assign" and cb_["stmts"][-1]["rv"]["k"] == "discr" \
+                    and cb_["stmts"][-1]["rv"]["pl"]["l"] == dest["l"]:
+                ready = [b_ for v_, b_ in ct["tg"] if v_ == 0]
+                if ready:
+                    cb_["term"] = goto(ready[0], sp)
+            S.raw.setdefault("inlined_awaits", []).append(cb["path"])
+            changed = True
+            n_done += 1
+        if not changed:
+            break
+    return raw, n_done
+
+
 def _closure_arg(S, op, closure_lookup):
     """(closure raw body, captures) for a `move _n` operand whose single def is a closure literal."""
     if op.get("k") != "move" or op["pl"]["p"]:
